@@ -155,8 +155,12 @@ def mapping_job(rng, area, failure, tag, tmp_dir=True):
     the tag in the shared output directory"""
     sub = area.inp / tag
     sub.mkdir()
+    fault = None
+    if failure.startswith('worker_'):
+        _, mode, point = failure.split('_')
+        fault = {'mode': mode, 'point': point}
     real_failure = failure if failure not in ('unwritable_output',) \
-        else 'success'
+        and fault is None else 'success'
     cfg, desc = c20suite.build_case(rng, sub, real_failure, awkward=False)
     shutil.rmtree(sub / 'out')
     shutil.rmtree(sub / 'tmp')
@@ -179,7 +183,16 @@ def mapping_job(rng, area, failure, tag, tmp_dir=True):
     if cfg['csv_result_path']:
         outputs.append(cfg['csv_result_path'])
     scratch = [str(area.tmp)] if tmp_dir else [str(out)]
-    return {'stage': 'mapping', 'job': {'stage': 'mapping', 'config': cfg},
+    job = {'stage': 'mapping', 'config': cfg}
+    if fault is not None:
+        # several chunks in flight, the failing one in the middle
+        cfg['type_assignment']['chunk_size'] = 2
+        cfg['type_assignment']['n_processors'] = rng.choice([2, 3])
+        import anndata
+        n = anndata.read_h5ad(cfg['query_path'], backed='r').shape[0]
+        fault['r0'] = 2 * rng.randrange(0, max(1, (n + 1) // 2))
+        job['fault'] = fault
+    return {'stage': 'mapping', 'job': job,
             'inputs': inputs, 'outputs': outputs, 'scratch': scratch,
             'failure': failure, 'encoding': desc['encoding'],
             'expect_ok': failure in ('success', 'csc_query',
@@ -395,6 +408,10 @@ def check_one(ctx, area, spec, all_specs, history, before, dig0, after,
                 early = ''
                 if spec['failure'] == 'unwritable_output':
                     early = '-early'
+                if spec['failure'].startswith('worker_') and not st['ok']:
+                    # an orphaned worker may outlive the failed run and keep
+                    # writing: runtime behaviour, its own class
+                    cls = 'after-worker-failure'
                 ctx.violation(
                     '%s/scratch/%s-left-%s%s' % (
                         'C19', pat.split('_N_')[0].split('_X')[0], cls,
@@ -561,11 +578,13 @@ MAPPING_FAILURES = ['negative_raw', 'no_marker_overlap',
                     'unknown_reference_marker', 'bad_taxonomy',
                     'missing_query', 'missing_stats', 'missing_markers',
                     'corrupt_query', 'corrupt_stats', 'corrupt_markers',
-                    'duplicate_genes', 'unwritable_output']
+                    'duplicate_genes', 'worker_raise_before',
+                    'worker_exit_before', 'worker_kill_before',
+                    'worker_raise_after', 'unwritable_output']
 
 
 def history_mapping(ctx, rng, failure, encoding_hint=None, tmp_dir=True,
-                    traced_all=True):
+                    traced_all=True, then_success=True):
     """stale files -> [failing run] -> successful run, same directories; the
     successful run is compared with a solo run"""
     hist = 'stale+%s+success' % failure if failure else 'stale+success'
@@ -578,6 +597,8 @@ def history_mapping(ctx, rng, failure, encoding_hint=None, tmp_dir=True,
         if failure:
             bad = mapping_job(rng, area, failure, 'bad', tmp_dir)
             run_specs(ctx, area, [bad], hist + ':failing', traced=traced_all)
+        if not then_success:
+            return
         state = rng.getstate()
         fail2 = 'csc_query' if encoding_hint == 'csc' else 'success'
 
@@ -640,8 +661,8 @@ def history_pair(ctx, rng, n=2):
         plant_stale(rng, area.tmp, k=6)
         specs, states, builds = [], [], []
         for i in range(n):
-            states.append(rng.getstate())
             fl = 'csc_query' if (i == 0 and rng.random() < 0.6) else 'success'
+            states.append(rng.getstate())
 
             def build(r, a, i=i, fl=fl):
                 return mapping_job(r, a, fl, 'c%d' % i, True)
@@ -681,7 +702,8 @@ def run(ctx):
     if ctx.tier == 'quick':
         fails = rng.sample(MAPPING_FAILURES[:-1], 1)
         history_mapping(ctx, rng, fails[0], encoding_hint='csc')
-        history_mapping(ctx, rng, 'unwritable_output', traced_all=False)
+        history_mapping(ctx, rng, 'unwritable_output', traced_all=False,
+                        then_success=False)
         history_stages(ctx, rng, rng.choice(['csr', 'dense']))
         history_pair(ctx, rng)
     else:
